@@ -228,6 +228,20 @@ Proof.
   cbn [fold_left]. now rewrite IH, qstep_length.
 Qed.
 
+Lemma inv_all_done_all_items items s :
+  Inv items s -> (1 <= length (pcs s))%nat -> all_done s = true -> Permutation (finished s) items.
+Proof.
+  intros I Hlen Hd. pose proof (all_done_spec s Hd) as Hall.
+  assert (Hq : queue s = []).
+  { destruct (nth_error (pcs s) 0) as [p|] eqn:H0.
+    - apply (inv_done _ _ I 0). now rewrite (Hall 0 p H0) in H0.
+    - apply nth_error_None in H0. lia. }
+  assert (Hh : holding s = []).
+  { unfold holding. clear - Hall. induction (pcs s) as [|p r IH]; [reflexivity|].
+    cbn. rewrite (Hall 0 p eq_refl). cbn. apply IH. intros t q Hq. exact (Hall (S t) q Hq). }
+  pose proof (inv_items _ _ I) as P. now rewrite Hq, Hh in P.
+Qed.
+
 Theorem queue_all_done_all_items items n sched :
   (1 <= n)%nat ->
   let s := qrun true sched (qinit items n) in
@@ -317,6 +331,33 @@ Proof.
     destruct p; cbn in *; try reflexivity. now apply IH. }
   apply existsb_exists in E as (p & Hin & Hp). apply In_nth_error in Hin as [t Ht].
   exists t, p. split; [exact Ht|]. intros ->. discriminate.
+Qed.
+
+(** which thread can move: the lock holder if there is one, else every thread that is not done *)
+Theorem queue_progress_strong items s : Inv items s ->
+  (forall h, lock s = Some h -> (mu (qstep true s h) < mu s)%nat) /\
+  (lock s = None -> forall t p, nth_error (pcs s) t = Some p -> p <> PDone -> (mu (qstep true s t) < mu s)%nat).
+Proof.
+  intros I. split.
+  - intros h Hl. destruct (inv_lock2 _ _ I h Hl) as (p & Hp & Hlk).
+    destruct (qstep_decreases s h) as [E|L]; [|exact L]. exfalso.
+    unfold qstep in E. rewrite Hp in E. destruct p; try discriminate.
+    + destruct (queue s); apply (f_equal pcs) in E; cbn in E;
+        apply (f_equal (fun l => nth_error l h)) in E; erewrite set_pc_same in E by eassumption; congruence.
+    + destruct (queue s); apply (f_equal pcs) in E; cbn in E;
+        apply (f_equal (fun l => nth_error l h)) in E; erewrite set_pc_same in E by eassumption; congruence.
+    + apply (f_equal pcs) in E; cbn in E;
+        apply (f_equal (fun l => nth_error l h)) in E; erewrite set_pc_same in E by eassumption; congruence.
+  - intros Hl t p Hp Hne.
+    destruct (qstep_decreases s t) as [E|L]; [|exact L]. exfalso.
+    unfold qstep in E. rewrite Hp, ?Hl in E.
+    destruct p; try congruence;
+      try (pose proof (inv_lock1 _ _ I t _ Hp eq_refl); congruence);
+      try (exact (inv_noblock _ _ I t Hp)).
+    + apply (f_equal pcs) in E; cbn in E;
+        apply (f_equal (fun l => nth_error l t)) in E; erewrite set_pc_same in E by eassumption; congruence.
+    + apply (f_equal pcs) in E; cbn in E;
+        apply (f_equal (fun l => nth_error l t)) in E; erewrite set_pc_same in E by eassumption; congruence.
 Qed.
 
 Theorem queue_progress items s :
